@@ -114,16 +114,86 @@ class NormBased(Contract):
         return _script('normbased(%r)' % (ob.clause,)).replace('c14m', 'c14m')
 
 
+class NormBasedGrid(Contract):
+    """BOUNDED native stand-in for the strict clauses of NormBased.__call__ (only SolverError escapes; the returned scale lies in
+    [minscale, maxscale]; a rejected step has scale < 1 -- LinesearchNewton asserts it): the real function on the grid
+    native/c14m.py:NB_MAGS^4 of finite one-entry vectors.  The grid points that fail on the pinned commit are a recorded KNOWN
+    FINDING (known_findings_normbased.json: float cancellation / overflow corners, e.g. (1, -1, 1, 1e30) -> (2.0, False));
+    a failing grid point that is NOT recorded is a violation."""
+    prop = PROP
+    fn = 'solver:NormBased.__call__'
+    label = 'strict-on-grid'
+    bounded = 'native enumeration of 9^4 finite one-entry inputs (magnitudes 0, .5, 1, 3, 1e+-30, 1e+-200)'
+    CLAUSES = ('only-SolverError-escapes', 'scale-within-minscale-maxscale', 'rejected-step-has-scale-below-one')
+
+    def decide(self):
+        import json, os, time
+        from pyvc.contract import ContractResult
+        from pyvc.core import Obligation
+        from pyvc import extract, report
+        here = os.path.dirname(os.path.dirname(os.path.abspath(__file__)))
+        cr = ContractResult(self)
+        try:
+            cr.fn = extract.get(self.fn)
+        except extract.NotFound as e:
+            cr.status, cr.reason = 'undecided', 'function not found: %s' % e
+            return cr
+        t0 = time.time()
+        script = "import sys; sys.path.insert(0, %r)\nfrom native import c14m\nc14m.normbased_grid()\n" % here
+        rc, out, err = report.run_native(script, timeout=1200)
+        cr.seconds = time.time() - t0
+        res = None
+        for line in out.split('\n'):
+            if line.startswith('BOUNDED-RESULT '):
+                res = json.loads(line[len('BOUNDED-RESULT '):])
+        if res is None or not res.get('cases'):
+            cr.status, cr.reason = 'undecided', 'native enumeration produced no result: %s' % (err or out)[-400:]
+            return cr
+        rec = json.load(open(os.path.join(here, 'known_findings_normbased.json')))
+        recorded = set((r[0],) + tuple(r[1:]) for r in rec['failures'])
+        cr.paths = res['cases']
+        cr.outcomes = {'cases': res['cases']}
+
+        def ob(clause, status, info, model=None):
+            o = Obligation('%s/%s/bounded/%s' % (PROP, self.key(), clause), [], z3.BoolVal(True), 'bounded', fn=self.key(), clause='bounded:' + clause,
+                           path=0, bounded=self.bounded, info=info)
+            o.contract, o.decided, o.status = self, True, status
+            o.backend = 'native exhaustive enumeration (%d cases)' % res['cases']
+            o.seconds = cr.seconds / 6
+            o.model = model
+            o.output = ''
+            cr.obligations.append(o)
+            return o
+        for cl in self.CLAUSES:
+            fails = [f for f in res['failures'] if f['clause'] == cl]
+            new = [f for f in fails if (cl,) + tuple(f['at']) not in recorded]
+            old = [f for f in fails if (cl,) + tuple(f['at']) in recorded]
+            # (1) every failing grid point is a recorded one
+            o = ob(cl + '/no-unrecorded-failure', 'refuted' if new else 'proved', {'unrecorded_failures': new[:3], 'recorded_failures_still_failing': len(old)},
+                   model={'witness': json.dumps(new[0])} if new else None)
+            if new:
+                w = new[0]
+                o.replay_script = ("import sys, warnings; sys.path.insert(0, %r); warnings.simplefilter('ignore')\nimport numpy\nfrom nutils import solver\n"
+                                   "v = [numpy.array([x]) for x in %r]\ntry:\n    r = solver.NormBased()(*v)\nexcept solver.SolverError:\n    r = 'SolverError'\n"
+                                   "except Exception as e:\n    r = type(e).__name__\nprint('NormBased()(%%r) -> %%r' %% (%r, r))\n"
+                                   "print('REPLAY: VIOLATION-CONFIRMED %s fails for a finite input that is not a recorded known finding')\n" % (here, w['inputs'], w['inputs'], cl))
+            # (2) the recorded failures (known finding); proved once they are gone
+            ob(cl + '/recorded-failures', 'refuted' if old else 'proved', {'recorded_failures_still_failing': len(old), 'example': old[:1]},
+               model={'witness': json.dumps(old[0])} if old else None)
+        return cr
+
+
 def contracts():
-    return [NormBased()]
+    return [NormBased(), NormBasedGrid()]
 
 
-# fails on the unchanged tree; reproduced natively with finite inputs (candidate defects, notes/C14-methods.md)
+# The strict symbolic contract fails on the unchanged tree (float arithmetic is uninterpreted in the model, so every strict clause has a counter-model):
+# the defect is a recorded known finding, decided on concrete floats by NormBasedGrid above; the symbolic strict variant stays out of contracts().
 PARKED = [NormBased(strict=True)]
 
 TRUSTED = ['math.fsum / math.sqrt / float ** 2 as axioms incl. the exceptions CPython raises (ValueError, OverflowError); all other float arithmetic uninterpreted']
 ASSUMPTIONS = ['NormBased: class invariant 0 < minscale < acceptscale < 1 < maxscale < inf (asserted by __post_init__)',
                'NormBased (certified part): ValueError / OverflowError raised by math.fsum and float ** 2 are let through; the strict contract that allows only '
-               'SolverError, demands minscale <= scale <= maxscale and `rejected => scale < 1` is PARKED because it fails natively (candidate defects)']
+               'SolverError, demands minscale <= scale <= maxscale and `rejected => scale < 1` fails natively for finite inputs: recorded KNOWN FINDING, checked on a fixed grid of concrete floats (NormBasedGrid, bounded)']
 NOT_COVERED = ['MedianBased.__call__ (boolean-mask / sort arithmetic on uninterpreted vectors is not modelled)',
                'that the NormBased estimate minimises the cubic model (numeric)']
